@@ -791,7 +791,7 @@ def group_by(table: Table, *cols: Col | ColName | str, add=False) -> Pipeable:
     cols = [ColName(col) if isinstance(col, str) else col for col in cols]
 
     for col in cols:
-        if isinstance(col, Col) and col._uuid not in table._cache.uuid_to_name:
+        if isinstance(col, Col) and col._uuid in table._cache.cols and col._uuid not in table._cache.uuid_to_name:
             raise ValueError(f"cannot group by non-selected column `{col.ast_repr()}`")
 
     new = copy.copy(table)
